@@ -43,5 +43,6 @@ let () =
     | "obs" -> M_obs.run_line
     | "chain" -> M_chain.run_line
     | "conc" -> M_conc.run_line
+    | "lin" -> M_lin.run_line
     | _ -> failwith ("unknown mode " ^ mode) in
   iter_lines stdin (fun line -> if line <> "" then f line)
